@@ -50,6 +50,36 @@ def gen_ops(rng, obs, nops):
             ops.append(["recompute", [] if rng.random() < 0.5 else [rng.randrange(nt)]])
         else:
             ops.append([kind])
+    # dummy scenario: a vehicle becomes a dummy tour; single inner nodes and then the rest of the dummy tour are moved
+    # into real vehicles (gap checks inside dummy tours, dummy -> real moves)
+    if rng.random() < 0.5:
+        ops.append(["delete", rng.randrange(64)])
+        for _ in range(rng.choice([1, 2, 3])):
+            j = rng.randrange(8)
+            ops.append([rng.choice(["override", "fit"]), 1000 + j, rng.choice([1, 1, 2]), 0, 2000 + rng.randrange(8)])
+            ops.append([rng.choice(["override", "fit"]), 1000 + j, 0, rng.choice([5, 5, 2]), 2000 + rng.randrange(8)])
+    # gap scenario: a chain a -> b -> c (-> d ...) in which a cannot reach c directly is spawned, turned into a dummy tour,
+    # then exactly b is taken out of the dummy tour (must be refused: the gap a/c cannot be closed) and the rest of
+    # the dummy tour is moved into real vehicles
+    if rng.random() < 0.6:
+        for _try in range(12):
+            ty = rng.randrange(nt)
+            ch = netobs.random_chain(rng, obs, ty, density=0.9)
+            pos = [k for k in range(len(ch) - 2) if ch[k + 2] not in obs.reach.get(ch[k], set())]
+            if pos:
+                k = rng.choice(pos)
+                # the gap triple in the middle, at the very start or at the very end of the dummy tour
+                cut = rng.choice(["mid", "start", "end"])
+                if cut == "start":
+                    ch, k = ch[k:], 0
+                elif cut == "end":
+                    ch = ch[:k + 3]
+                ops.append(["spawn", ty, ch])
+                ops.append(["delete", 3000])
+                ops.append([rng.choice(["override", "fit"]), 4000, k + 1, 0, 2000 + rng.randrange(8)])
+                ops.append([rng.choice(["override", "fit"]), 4000, 0, len(ch), 2000 + rng.randrange(8)])
+                ops.append(["override", 4000, max(0, k - 1), 3, 2000 + rng.randrange(8)])
+                break
     # scenario tail: merge vehicles into common rotation cycles, then update several vehicles of one cycle in ONE
     # call (improve_depots with 2-3 vehicles, end-depot reassignments), so that the one-by-one transition updates
     # see each other's new tours
